@@ -82,7 +82,12 @@ fn main() {
         rustfft::verif_hooks::set_feature_mask(m);
     }
     // panics of the code under test are data; keep stderr quiet
-    std::panic::set_hook(Box::new(|_| {}));
+    std::panic::set_hook(Box::new(|info| {
+        // a panic raised while the library is being called is an observation; anything else is a harness problem: say where
+        if !calls::in_library() {
+            eprintln!("rfv: unexpected panic outside a library call: {}", info);
+        }
+    }));
 
     if driver == "selftest" {
         let w = refdft::selftest();
